@@ -156,6 +156,18 @@ func (b *Body) calleeEnv(con *FnContract, sig *types.Signature, isInvoke bool, a
 		}
 		env.vars[fmt.Sprintf("a%d", i)] = &CV{T: b.refT(a), Type: a.Type, Sort: ft.sortOf(a.Type), Addr: a.Addr}
 	}
+	// parameters renamed since the unchanged tree: the contract's old names, by position
+	if con != nil && !isInvoke {
+		if old := ft.e.oldParams(con.Key); old != nil {
+			for i, a := range args {
+				if i < len(old) && old[i] != "" && (i >= len(names) || old[i] != names[i]) {
+					if _, taken := env.vars[old[i]]; !taken {
+						env.vars[old[i]] = &CV{T: b.refT(a), Type: a.Type, Sort: ft.sortOf(a.Type), Addr: a.Addr}
+					}
+				}
+			}
+		}
+	}
 	return env
 }
 
